@@ -1,6 +1,13 @@
 ENGINES = {"lease": {"pkg": "internal/pullapi", "dir": "harness/lease", "replay": "TestReplay_Lease"}}
 
 PROPS = {
+    "C01": {
+        "rule": "settle-call tier (engine lease): the C04 transport histories with a store fault on every second ack/nack; a settle call that was answered as done "
+                "(204/200) must have been applied, also when an earlier attempt failed in the store and the consumer retried inside the idempotency window",
+        "assumptions": [],
+        "guards": [],
+        "parts": [{"engine": "lease", "test": "TestProp_C01_AckFault", "quick": 2000, "thorough": 100000}],
+    },
     "C04": {
         "rule": "transport tier: every lease id ever granted over the Pull HTTP handler is kept and presented again through ack/nack(dead)/extend, single "
                 "and lease_ids batches (duplicates, padded/unknown/blank ids), interleaved with clock moves on store and handler (1 ms .. beyond the 2-minute "
